@@ -202,3 +202,33 @@ func HarnessKeyHash() {
 		vAssert((c >= '0' && c <= '9') || (c >= 'a' && c <= 'f'), "c02.key-not-hex")
 	}
 }
+
+// HarnessKeyDerivedPairs: one symbolic absolute path p and paths derived from it by adding
+// a trailing slash or dot-segments: they share an entry exactly when the reference
+// normal forms agree (longer paths than the two-free-paths harness can afford).
+func HarnessKeyDerivedPairs() {
+	p := symPath(vParam("len", 4))
+	var q string
+	switch symChoice(5) {
+	case 0:
+		q = p + "/"
+	case 1:
+		q = p + "/."
+	case 2:
+		q = p + "/.."
+	case 3:
+		q = "/." + p
+	default:
+		q = p + "//"
+	}
+	a := preHash("GET", "h", p, "", false)
+	b := preHash("GET", "h", q, "", false)
+	vReach("compared")
+	if refNormPath(p) == refNormPath(q) {
+		vReach("same-resource")
+		vAssert(a == b, "c02.same-path-not-shared")
+	} else {
+		vReach("different-resource")
+		vAssert(a != b, "c02.different-paths-share-entry")
+	}
+}
